@@ -51,9 +51,8 @@ Print Assumptions C03_sym_enum_tables.
 
 (* ================================================================== symbol tables *)
 (* the number of entries: any entry size >= the standard one, trailing bytes short of an entry ignored *)
-Theorem C03_num_symbols_exact : forall le is64 es rows strtab img off size stroff,
-  symtab_ok is64 es rows = true -> names_ok strtab rows = true ->
-  placed img off (encode_symtab le is64 rows) ->
+Theorem C03_num_symbols_exact : forall le is64 es (rows : list row) off size stroff,
+  symtab_ok is64 es rows = true ->
   es * zlen rows <= size < es * (zlen rows + 1) ->
   num_symbols (cfg le is64 off size es stroff) = zlen rows.
 Proof. exact num_symbols_exact. Qed.
@@ -174,6 +173,15 @@ Theorem C03_sysv_lookup_complete : forall (T : sysv_table) (vs : list symview) (
   exists v, elf_hash_get_symbol getsym (sysv_params T) q = Ok (Some v) /\ fst v = q.
 Proof. exact sysv_lookup_complete. Qed.
 Print Assumptions C03_sysv_lookup_complete.
+
+(* exactly which: the first symbol of the bucket's chain that bears the name *)
+Theorem C03_sysv_lookup_exact : forall (T : sysv_table) (vs : list symview) (getsym : Z -> res symbol),
+  wf_sysv_hash T (map fst vs) = true ->
+  (forall i, 0 <= i < zlen vs -> getsym i = Ok (vth vs i)) ->
+  forall q, elf_hash_get_symbol getsym (sysv_params T) q
+            = Ok (option_map (vth vs) (find (fun j => beqb (fst (vth vs j)) q) (bucket_chain T q))).
+Proof. exact sysv_get_symbol_char. Qed.
+Print Assumptions C03_sysv_lookup_exact.
 
 (* absent names — bucket collisions and full hash collisions included — yield None, never an error *)
 Theorem C03_sysv_lookup_absent : forall (T : sysv_table) (vs : list symview) (getsym : Z -> res symbol),
@@ -296,7 +304,6 @@ Proof. exact gnu_section_absent. Qed.
 Print Assumptions C03_gnu_section_absent.
 
 Theorem C03_gnu_section_count : forall le is64 es rows strtab img off size stroff T hoff,
-  symtab_ok is64 es rows = true -> names_ok strtab rows = true ->
   wf_gnu_hash is64 T (names_of strtab rows) = true -> placed img hoff (encode_gnu_hash le is64 T) ->
   gnu_hash_section_number_of_symbols img (cfg le is64 off size es stroff) hoff = Ok (zlen rows).
 Proof. exact gnu_section_count. Qed.
